@@ -1,6 +1,7 @@
 package c11
 
 import (
+	"bytes"
 	"reflect"
 	"strings"
 	"testing"
@@ -47,18 +48,27 @@ func FuzzCertificates(f *testing.F) {
 		var v harness.Verdict
 		in := append([]byte(nil), data...)
 		c, err := x509.ParseCertificate(in)
+		if !bytes.Equal(in, data) {
+			v.Failf("input-modified:ParseCertificate", "ParseCertificate modified its input buffer")
+		}
 		cl := contract(&v, "ParseCertificate", c, err)
 		if c != nil {
 			checkRaw(&v, "ParseCertificate", in, 0, c, false)
 		}
 		in2 := append([]byte(nil), data...)
 		tc, terr := x509.ParseTBSCertificate(in2)
+		if !bytes.Equal(in2, data) {
+			v.Failf("input-modified:ParseTBSCertificate", "ParseTBSCertificate modified its input buffer")
+		}
 		contract(&v, "ParseTBSCertificate", tc, terr)
 		if tc != nil {
 			checkRaw(&v, "ParseTBSCertificate", in2, 0, tc, true)
 		}
 		in3 := append([]byte(nil), data...)
 		cs, cerr := x509.ParseCertificates(in3)
+		if !bytes.Equal(in3, data) {
+			v.Failf("input-modified:ParseCertificates", "ParseCertificates modified its input buffer")
+		}
 		cls := contract(&v, "ParseCertificates", cs, cerr)
 		off := 0
 		for i, e := range cs {
